@@ -1,4 +1,5 @@
 import MdwModel.Driver.Live
+import MdwModel.Driver.Image
 namespace Mdw.Drv.C01
 open Mdw Mdw.Drv Mdw.Drv.Live
 
@@ -24,6 +25,10 @@ def run (kv : List (String × String)) : IO Res := do
   match wfImage img with
   | some why => return .propfail why tags
   | none => pure ()
+  -- every byte accounted for: the image is the model's layout of its own content
+  match Image.checkImage bytes cfg.crash.isSome with
+  | some why => return .mismatch why tags
+  | none => tags := "image.exact" :: tags
   -- header facts the statement names explicitly
   let some h := decodeHeader img | return .propfail "header" tags
   let some dir := decodeDirectory img h | return .propfail "directory" tags
